@@ -190,6 +190,9 @@ func (e *Env) FailingCall(t *rapid.T) *transaction.Transaction {
 			return txn
 		}
 	}
+	if rapid.IntRange(0, 2).Draw(t, "semiValid") == 1 {
+		return e.SemiValid(t)
+	}
 	h := e.H
 	ws := e.Wallets()
 	from := ws[rapid.IntRange(0, len(ws)-1).Draw(t, "from")]
@@ -250,3 +253,98 @@ func (e *Env) Governance(t *rapid.T) *transaction.Transaction {
 
 // Extra generators are registered by the contract-specific libraries (late failures, multi-step scripts).
 var Extra []func(t *rapid.T, e *Env) *transaction.Transaction
+
+// ---------------------------------------------------------------------------
+// Semi-valid calls: a real function of the right contract, an input of the shape that function expects, ids that are
+// well-formed but mostly name nothing, and a value that passes the usual minimum-lock checks. These calls get past
+// the first validations of a contract and fail late (or succeed), which is where a contract has already written or
+// queued a transfer.
+
+type semi struct {
+	sc, fn string
+	inputs []string
+}
+
+var semiTable = []semi{
+	{sim.StorageSC, "write_pool_lock", []string{`{"allocation_id":"$H"}`, `{"allocation_id":"$C"}`}},
+	{sim.StorageSC, "read_pool_lock", []string{`{}`, `{"target_id":"$C"}`, `{"target_id":"$H"}`}},
+	{sim.StorageSC, "read_pool_unlock", []string{`{}`}},
+	{sim.StorageSC, "stake_pool_lock", []string{`{"provider_type":3,"provider_id":"$H"}`, `{"provider_type":4,"provider_id":"$C"}`}},
+	{sim.StorageSC, "stake_pool_unlock", []string{`{"provider_type":3,"provider_id":"$H"}`}},
+	{sim.StorageSC, "collect_reward", []string{`{"provider_type":3,"provider_id":"$H"}`}},
+	{sim.StorageSC, "new_allocation_request", []string{
+		`{"data_shards":1,"parity_shards":1,"size":1073741824,"owner_id":"$C","owner_public_key":"","blobbers":["$H","$H2"],"blobber_auth_tickets":["",""],"read_price_range":{"min":0,"max":70000000000},"write_price_range":{"min":0,"max":70000000000}}`,
+		`{"data_shards":2,"parity_shards":1,"size":1073741824,"blobbers":["$H","$H2","$H3"],"blobber_auth_tickets":["","",""],"read_price_range":{"min":0,"max":70000000000},"write_price_range":{"min":0,"max":70000000000}}`,
+		`{"data_shards":1,"parity_shards":1,"size":1,"blobbers":[],"read_price_range":{"min":0,"max":1},"write_price_range":{"min":0,"max":1}}`}},
+	{sim.StorageSC, "update_allocation_request", []string{`{"id":"$H","extend":true}`, `{"id":"$H","size":1024,"add_blobber_id":"$H2"}`}},
+	{sim.StorageSC, "cancel_allocation", []string{`{"allocation_id":"$H"}`}},
+	{sim.StorageSC, "finalize_allocation", []string{`{"allocation_id":"$H"}`}},
+	{sim.StorageSC, "kill_blobber", []string{`{"provider_id":"$H"}`}},
+	{sim.StorageSC, "shutdown_blobber", []string{`{"provider_id":"$H"}`}},
+	{sim.StorageSC, "add_blobber", []string{`{"id":"$C","url":"https://blobber$N.verif.test","capacity":10737418240,"terms":{"read_price":100000000,"write_price":1000000000},"stake_pool_settings":{"delegate_wallet":"$C2","num_delegates":5,"service_charge":0.1}}`,
+		`{"id":"$C","url":"https://blobber$N.verif.test","capacity":1,"terms":{"read_price":1,"write_price":1},"stake_pool_settings":{"delegate_wallet":"$C","num_delegates":5,"service_charge":0.1}}`}},
+	{sim.StorageSC, "blobber_health_check", []string{`{}`}},
+	{sim.StorageSC, "free_allocation_request", []string{`{"recipient_public_key":"","marker":"{\"assigner\":\"$C\",\"recipient\":\"$C\",\"free_tokens\":1,\"nonce\":1,\"signature\":\"00\",\"blobbers\":[]}","blobbers":[]}`}},
+	{sim.StorageSC, "add_free_storage_assigner", []string{`{"name":"$C","public_key":"","individual_limit":1,"total_limit":10}`}},
+	{sim.StorageSC, "commit_settings_changes", []string{`{}`}},
+	{sim.MinerSC, "addToDelegatePool", []string{`{"provider_type":1,"provider_id":"$M"}`, `{"provider_type":2,"provider_id":"$S"}`, `{"provider_type":1,"provider_id":"$H"}`}},
+	{sim.MinerSC, "deleteFromDelegatePool", []string{`{"provider_type":1,"provider_id":"$M"}`, `{"provider_type":2,"provider_id":"$S"}`}},
+	{sim.MinerSC, "collect_reward", []string{`{"provider_type":1,"provider_id":"$M"}`, `{"provider_type":2,"provider_id":"$S"}`}},
+	{sim.MinerSC, "kill_miner", []string{`{"provider_id":"$M"}`, `{"provider_id":"$H"}`}},
+	{sim.MinerSC, "kill_sharder", []string{`{"provider_id":"$S"}`}},
+	{sim.MinerSC, "payFees", []string{`{"round":$R}`, `{"round":1}`}},
+	{sim.MinerSC, "add_miner", []string{`{"id":"$C","n2n_host":"m$N.verif.test","host":"m$N.verif.test","port":7071,"public_key":"$K","short_name":"m$N","build_tag":"x","delegate_wallet":"$C2","service_charge":0.1,"number_of_delegates":5}`}},
+	{sim.MinerSC, "add_sharder", []string{`{"id":"$C","n2n_host":"s$N.verif.test","host":"s$N.verif.test","port":7171,"public_key":"$K","short_name":"s$N","build_tag":"x","delegate_wallet":"$C2","service_charge":0.1,"number_of_delegates":5}`}},
+	{sim.MinerSC, "contributeMpk", []string{`{"id":"$M","mpk":["aa","bb"]}`}},
+	{sim.MinerSC, "shareSignsOrShares", []string{`{"id":"$M","share_or_sign":{}}`}},
+	{sim.MinerSC, "wait", []string{`{}`}},
+	{sim.MinerSC, "sharder_keep", []string{`{"id":"$S","n2n_host":"s.verif.test","public_key":""}`}},
+	{sim.ZcnSC, "burn", []string{`{"ethereum_address":"0x$E"}`, `{"ethereum_address":""}`}},
+	{sim.ZcnSC, "mint", []string{`{"ethereum_txn_id":"0x$E","amount":1000000,"nonce":$N,"signatures":[{"authorizer_id":"$H","signature":"00"}],"receiving_client_id":"$C"}`}},
+	{sim.ZcnSC, "add-authorizer", []string{`{"public_key":"$K","url":"https://auth$N.verif.test","stake_pool_settings":{"delegate_wallet":"$C2","num_delegates":5,"service_charge":0.1}}`}},
+	{sim.ZcnSC, "authorizer-health-check", []string{`{"id":"$C"}`}},
+	{sim.ZcnSC, "delete-authorizer", []string{`{"id":"$H"}`}},
+	{sim.ZcnSC, "collect_reward", []string{`{"provider_type":5,"provider_id":"$H"}`}},
+	{sim.ZcnSC, "stake_pool_lock", []string{`{"provider_type":5,"provider_id":"$H"}`}},
+	{sim.VestingSC, "add", []string{`{"description":"d","start_time":$T,"duration":600000000000,"destinations":[{"id":"$C2","amount":1000}]}`, `{"description":"d","start_time":$T,"duration":600000000000,"destinations":[{"id":"$C2","amount":900000000000000},{"id":"$C","amount":1}]}`}},
+	{sim.VestingSC, "trigger", []string{`{"pool_id":"$H"}`}},
+	{sim.VestingSC, "unlock", []string{`{"pool_id":"$H"}`}},
+	{sim.VestingSC, "stop", []string{`{"pool_id":"$H","destination":"$C"}`}},
+	{sim.VestingSC, "delete", []string{`{"pool_id":"$H"}`}},
+	{sim.FaucetSC, "pour", []string{`{}`}},
+	{sim.FaucetSC, "refill", []string{`{}`}},
+	{sim.MultisigSC, "register", []string{`{"id":"$C","signature_scheme":"bls0chain","public_key":"$K","signer_threshold_ids":["a","b"],"signer_public_keys":["$K","$K"],"num_required":2}`}},
+}
+
+// SemiValid draws one semi-valid contract call.
+func (e *Env) SemiValid(t *rapid.T) *transaction.Transaction {
+	h := e.H
+	ws := e.Wallets()
+	from := ws[rapid.IntRange(0, len(ws)-1).Draw(t, "from")]
+	other := ws[rapid.IntRange(0, len(ws)-1).Draw(t, "other")]
+	row := semiTable[rapid.IntRange(0, len(semiTable)-1).Draw(t, "semiFn")]
+	in := row.inputs[rapid.IntRange(0, len(row.inputs)-1).Draw(t, "semiInput")]
+	n := rapid.IntRange(0, 3).Draw(t, "n")
+	rep := strings.NewReplacer(
+		"$H2", encryption.Hash(fmt.Sprintf("bogus-b-%d", n)), "$H3", encryption.Hash(fmt.Sprintf("bogus-c-%d", n)),
+		"$H", encryption.Hash(fmt.Sprintf("bogus-%d", n)), "$C2", other.ID, "$C", from.ID, "$K", from.PublicKey,
+		"$M", h.S.Miners[n%len(h.S.Miners)], "$S", h.S.Sharders[n%len(h.S.Sharders)],
+		"$E", encryption.Hash(fmt.Sprintf("eth-%d", n))[:40], "$N", fmt.Sprint(n), "$R", fmt.Sprint(h.Round), "$T", fmt.Sprint(int64(h.Now)+int64(n)*100))
+	in = rep.Replace(in)
+	bal := sim.ViewOf(h.Cur.B).Balance(from.ID)
+	f := fee(t)
+	// values that pass the usual minimum locks come first
+	var value currency.Coin
+	switch rapid.IntRange(0, 5).Draw(t, "semiValue") {
+	case 0, 1:
+		value = currency.Coin(rapid.SampledFrom([]uint64{1e10, 1e9, 5e10, 1e11, 1e8}).Draw(t, "lockLike"))
+	case 2:
+		value = 0
+	default:
+		value = Amount(t, "value", bal, uint64(f))
+	}
+	txn := h.Call(from, row.sc, row.fn, in, value, f)
+	e.note("semi/" + h.Label(row.sc) + "." + row.fn)
+	e.Past = append(e.Past, txn)
+	return txn
+}
